@@ -1,7 +1,7 @@
 (* Props_C10.v — C10: rate tests flag a point by its change from the previous point per elapsed second.
    Only statements, `exact <lemma>` and Print Assumptions.
    (statements written out by tools/mk_props.py from the lemmas they restate) *)
-From IoosQc Require Import Base Generated Rate RateProofs Skel SkelProofs.
+From IoosQc Require Import Base Generated Rate RateProofs Skel SkelBase SkelP_rate Arr Gen ArrBase ArrP_rate GenBase GenP_rate.
 
 
 (* rate_of_change_test: for all series and all strictly increasing whole-second time axes (regular or not), all missing patterns and every threshold >= 0, the operational model equals the per-point specification; mismatched lengths are rejected on both sides *)
@@ -168,6 +168,173 @@ Theorem C10_source_skeleton_speed :
            (run_steps (env_speed geod st ft lon lat ts) skel_speed_test (all_flags (length lon) GOOD)).
 Proof. exact (@skel_speed). Qed.
 Print Assumptions C10_source_skeleton_speed.
+
+(* TRANSLATOR TIE, whole function: the array program (roc = zeros; roc[1:] = abs(diff(inp) / diff(tinp)[s])) AND the flag skeleton, both generated from the CURRENT source of rate_of_change_test and given their numpy meaning by Arr.run_prog / Skel.run_steps, compute exactly the model's flags (time steps of non-zero whole seconds) *)
+Theorem C10_source_program :
+  forall (thr : Q) (xs : list obs) (ts : list Z),
+         length xs = length ts ->
+         steps_nonzero ts ->
+         exists fl : list flag,
+           gen_flags (length xs)
+             (bind_tim
+                [(String.String (Ascii.Ascii false false true false true true true false)
+                    (String.String (Ascii.Ascii true false false true false true true false)
+                       (String.String (Ascii.Ascii false true true true false true true false)
+                          (String.String (Ascii.Ascii false false false false true true true false)
+                             String.EmptyString))), ts)])
+             (bind_num
+                [(String.String (Ascii.Ascii false false true false true true true false)
+                    (String.String (Ascii.Ascii false false false true false true true false)
+                       (String.String (Ascii.Ascii false true false false true true true false)
+                          (String.String (Ascii.Ascii true false true false false true true false)
+                             (String.String (Ascii.Ascii true true false false true true true false)
+                                (String.String
+                                   (Ascii.Ascii false false false true false true true false)
+                                   (String.String
+                                      (Ascii.Ascii true true true true false true true false)
+                                      (String.String
+                                         (Ascii.Ascii false false true true false true true false)
+                                         (String.String
+                                            (Ascii.Ascii false false true false false true true false)
+                                            String.EmptyString)))))))), Some thr)])
+             (fun _ : String.string => None) prog_rate_of_change_test skel_rate_of_change_test
+             [String.String (Ascii.Ascii true false false true false true true false)
+                (String.String (Ascii.Ascii false true true true false true true false)
+                   (String.String (Ascii.Ascii false false false false true true true false)
+                      String.EmptyString));
+              String.String (Ascii.Ascii false true false false true true true false)
+                (String.String (Ascii.Ascii true true true true false true true false)
+                   (String.String (Ascii.Ascii true true false false false true true false)
+                      String.EmptyString))]
+             (bind_store
+                [(String.String (Ascii.Ascii true false false true false true true false)
+                    (String.String (Ascii.Ascii false true true true false true true false)
+                       (String.String (Ascii.Ascii false false false false true true true false)
+                          String.EmptyString)), xs)]) GOOD = Some fl /\
+           roc_model thr xs ts = Flags fl.
+Proof. exact (@gen_roc). Qed.
+Print Assumptions C10_source_program.
+
+(* the same for argo.speed_test, for EVERY geodesic function (dist = great_circle_distance(lat, lon) enters as an input array) *)
+Theorem C10_source_program_speed :
+  forall (geod : Q -> Q -> Q -> Q -> Q) (st ft : Q) (lon lat : list obs) (ts : list Z),
+         length lon = length lat ->
+         length lon = length ts ->
+         (2 <= length lon)%nat ->
+         steps_nonzero ts ->
+         exists fl : list flag,
+           gen_flags (length lon)
+             (bind_tim
+                [(String.String (Ascii.Ascii false false true false true true true false)
+                    (String.String (Ascii.Ascii true false false true false true true false)
+                       (String.String (Ascii.Ascii false true true true false true true false)
+                          (String.String (Ascii.Ascii false false false false true true true false)
+                             String.EmptyString))), ts)])
+             (bind_num
+                [(String.String (Ascii.Ascii true true false false true true true false)
+                    (String.String (Ascii.Ascii true false true false true true true false)
+                       (String.String (Ascii.Ascii true true false false true true true false)
+                          (String.String (Ascii.Ascii false false false false true true true false)
+                             (String.String (Ascii.Ascii true false true false false true true false)
+                                (String.String
+                                   (Ascii.Ascii true true false false false true true false)
+                                   (String.String
+                                      (Ascii.Ascii false false true false true true true false)
+                                      (String.String
+                                         (Ascii.Ascii true true true true true false true false)
+                                         (String.String
+                                            (Ascii.Ascii false false true false true true true false)
+                                            (String.String
+                                               (Ascii.Ascii false false false true false true true
+                                                  false)
+                                               (String.String
+                                                  (Ascii.Ascii false true false false true true true
+                                                     false)
+                                                  (String.String
+                                                     (Ascii.Ascii true false true false false true
+                                                        true false)
+                                                     (String.String
+                                                        (Ascii.Ascii true true false false true true
+                                                           true false)
+                                                        (String.String
+                                                           (Ascii.Ascii false false false true false
+                                                              true true false)
+                                                           (String.String
+                                                              (Ascii.Ascii true true true true false
+                                                                 true true false)
+                                                              (String.String
+                                                                 (Ascii.Ascii false false true true
+                                                                    false true true false)
+                                                                 (String.String
+                                                                    (Ascii.Ascii false false true
+                                                                       false false true true false)
+                                                                    String.EmptyString)))))))))))))))),
+                  Some st);
+                 (String.String (Ascii.Ascii false true true false false true true false)
+                    (String.String (Ascii.Ascii true false false false false true true false)
+                       (String.String (Ascii.Ascii true false false true false true true false)
+                          (String.String (Ascii.Ascii false false true true false true true false)
+                             (String.String (Ascii.Ascii true true true true true false true false)
+                                (String.String
+                                   (Ascii.Ascii false false true false true true true false)
+                                   (String.String
+                                      (Ascii.Ascii false false false true false true true false)
+                                      (String.String
+                                         (Ascii.Ascii false true false false true true true false)
+                                         (String.String
+                                            (Ascii.Ascii true false true false false true true false)
+                                            (String.String
+                                               (Ascii.Ascii true true false false true true true
+                                                  false)
+                                               (String.String
+                                                  (Ascii.Ascii false false false true false true true
+                                                     false)
+                                                  (String.String
+                                                     (Ascii.Ascii true true true true false true true
+                                                        false)
+                                                     (String.String
+                                                        (Ascii.Ascii false false true true false true
+                                                           true false)
+                                                        (String.String
+                                                           (Ascii.Ascii false false true false false
+                                                              true true false) String.EmptyString))))))))))))),
+                  Some ft)]) (fun _ : String.string => None) prog_speed_test skel_speed_test
+             [String.String (Ascii.Ascii false false true true false true true false)
+                (String.String (Ascii.Ascii true true true true false true true false)
+                   (String.String (Ascii.Ascii false true true true false true true false)
+                      String.EmptyString));
+              String.String (Ascii.Ascii false false true true false true true false)
+                (String.String (Ascii.Ascii true false false false false true true false)
+                   (String.String (Ascii.Ascii false false true false true true true false)
+                      String.EmptyString));
+              String.String (Ascii.Ascii false false true false false true true false)
+                (String.String (Ascii.Ascii true false false true false true true false)
+                   (String.String (Ascii.Ascii true true false false true true true false)
+                      (String.String (Ascii.Ascii false false true false true true true false)
+                         String.EmptyString)));
+              String.String (Ascii.Ascii true true false false true true true false)
+                (String.String (Ascii.Ascii false false false false true true true false)
+                   (String.String (Ascii.Ascii true false true false false true true false)
+                      (String.String (Ascii.Ascii true false true false false true true false)
+                         (String.String (Ascii.Ascii false false true false false true true false)
+                            String.EmptyString))))]
+             (bind_store
+                [(String.String (Ascii.Ascii false false true true false true true false)
+                    (String.String (Ascii.Ascii true true true true false true true false)
+                       (String.String (Ascii.Ascii false true true true false true true false)
+                          String.EmptyString)), lon);
+                 (String.String (Ascii.Ascii false false true true false true true false)
+                    (String.String (Ascii.Ascii true false false false false true true false)
+                       (String.String (Ascii.Ascii false false true false true true true false)
+                          String.EmptyString)), lat);
+                 (String.String (Ascii.Ascii false false true false false true true false)
+                    (String.String (Ascii.Ascii true false false true false true true false)
+                       (String.String (Ascii.Ascii true true false false true true true false)
+                          (String.String (Ascii.Ascii false false true false true true true false)
+                             String.EmptyString))), speed_dist geod lon lat)]) GOOD = 
+           Some fl /\ speed_model geod st ft lon lat ts = Flags fl.
+Proof. exact (@gen_speed). Qed.
+Print Assumptions C10_source_program_speed.
 
 Theorem C10_assign_order :
   assign_order_rate_of_change_test = [SUSPECT; MISSING] /\ assign_order_speed_test = [MISSING; UNKNOWN; SUSPECT; FAIL; UNKNOWN; MISSING].
